@@ -50,6 +50,28 @@ def _uses(project: Project, mod, gname: str):
 def _free_locals(e: ast.AST, comps: List[str], fi: FunctionInfo, project: Project) -> List[str]:
     """local names left in `e` after every occurrence of a key component was taken out"""
     left: List[str] = []
+    busy = set()
+
+    def defs_of(name):
+        """right-hand sides the local name is given in this function (None when one of them is not a plain assignment)"""
+        out = []
+        for x in ast.walk(fi.node):
+            if isinstance(x, ast.Assign):
+                for t in x.targets:
+                    if isinstance(t, ast.Name) and t.id == name:
+                        out.append(x.value)
+                    elif isinstance(t, (ast.Tuple, ast.List)) and any(isinstance(e_, ast.Name) and e_.id == name for e_ in t.elts):
+                        if isinstance(x.value, (ast.Tuple, ast.List)) and len(x.value.elts) == len(t.elts):
+                            out += [v for e_, v in zip(t.elts, x.value.elts) if isinstance(e_, ast.Name) and e_.id == name]
+                        else:
+                            return None
+            elif isinstance(x, (ast.AugAssign, ast.For, ast.comprehension)) and any(
+                    isinstance(e_, ast.Name) and e_.id == name for e_ in ast.walk(x.target)):
+                return None
+        a = fi.node.args
+        if name in [y.arg for y in a.posonlyargs + a.args + a.kwonlyargs]:
+            return None
+        return out or None
 
     def rec(n):
         if isinstance(n, ast.expr) and ast.dump(n) in comps:
@@ -57,6 +79,17 @@ def _free_locals(e: ast.AST, comps: List[str], fi: FunctionInfo, project: Projec
         if isinstance(n, ast.Name):
             if isinstance(n.ctx, ast.Load) and n.id not in ("np", "numpy", "math", "True", "False", "None") \
                     and project.resolve(fi.module, n, local_names(fi.node)) is None and n.id not in left:
+                # a local computed from the key alone (`rows = np.arange(M)`) is determined by the key
+                ds = defs_of(n.id) if n.id not in busy and len(busy) < 12 else None
+                if ds:
+                    busy.add(n.id)
+                    before = len(left)
+                    for d in ds:
+                        rec(d)
+                    busy.discard(n.id)
+                    if len(left) == before:
+                        return
+                    del left[before:]
                 left.append(n.id)
             return
         if isinstance(n, ast.Attribute):
@@ -201,6 +234,12 @@ def _keyed(project, mod, gname, uses):
     if len(keys) != 1:
         return dict(kind="A", verdict="unmodelled", why="the cache is read and filled under different key expressions", node=stores[0][2], fi=h)
     K = stores[0][1]
+    if isinstance(K, ast.Name):
+        # `key = (M, N)` assigned once in the helper: the key is what that name was given
+        asg = [n.value for n in ast.walk(h.node) if isinstance(n, ast.Assign) and len(n.targets) == 1
+               and isinstance(n.targets[0], ast.Name) and n.targets[0].id == K.id]
+        if len(asg) == 1:
+            K = asg[0]
     comps_h = [ast.dump(c) for c in _key_components(K)]
     # the name(s) of the cached object inside the helper
     st_parents = {}
